@@ -1,10 +1,12 @@
 #!/bin/bash
 # Re-run every seeded change against the current checks (no repository tests;
-# those were run when each change was first confirmed).  Two lanes.
+# those were run when each change was first confirmed).  Three lanes.
 cd /verif
+mkdir -p /tmp/vmut
 ids=$(ls seeded | grep -v INFO.json)
-lane() { for id in "$@"; do /venv/bin/python tools/evalmut.py seeded/$id --no-tests --budget ${BUDGET:-12} > /tmp/vmut/$id.final.log 2>&1; done; }
-a=(); b=(); i=0
-for id in $ids; do if [ $((i%2)) = 0 ]; then a+=($id); else b+=($id); fi; i=$((i+1)); done
-lane "${a[@]}" & lane "${b[@]}" & wait
-/venv/bin/python tools/mkmeta.py
+lane() { for id in "$@"; do /venv/bin/python tools/evalmut.py seeded/$id --no-tests --budget ${BUDGET:-10} > /tmp/vmut/$id.final.log 2>&1; done; }
+a=(); b=(); c=(); i=0
+for id in $ids; do case $((i%3)) in 0) a+=($id);; 1) b+=($id);; 2) c+=($id);; esac; i=$((i+1)); done
+lane "${a[@]}" & lane "${b[@]}" & lane "${c[@]}" & wait
+/venv/bin/python tools/mkmeta.py > /tmp/vmut/mkmeta.log
+echo evalall done
